@@ -225,6 +225,23 @@ def option_grid(cls, rng=None, extra_unknown=True):
     return grid
 
 
+# value classes tried for EVERY option name a transformation reads (names derived from the sources
+# by option_keys): set-but-falsy values, small/large/negative integers and wrong types
+GENERIC_VALUES = [None, False, 0, "", [], True, 1, 2, 3, 10 ** 6, -1, "x", [1], {"a": 1}, 1.5]
+
+
+def generic_grid(cls):
+    """single-key dictionaries {key: value class} that are not already part of option_grid(cls)."""
+    have = {repr(g) for g in option_grid(cls)}
+    out = []
+    for k in option_keys(cls):
+        for v in GENERIC_VALUES:
+            d = {k: v}
+            if repr(d) not in have:
+                out.append(d)
+    return out
+
+
 # ----------------------------------------------------------------------------- instances
 def instances(cls):
     """list of (label, instance) for a transformation class (several constructor variants)."""
